@@ -1,5 +1,13 @@
 (* C20 - accuracy of gauss_quant against the normal CDF
-   Phi x = 1/2 + int_0^x exp(-t^2/2)/sqrt(2 pi) dt. *)
+   Phi x = 1/2 + int_0^x exp(-t^2/2)/sqrt(2 pi) dt, for EVERY p in [1e-20, 1 - 1e-20].
+
+   With y = sqrt(-2 ln p), p = exp(-y^2/2) and gauss_quant p 0 1 = - oez y, the claim
+   Phi(-oez y - e) < p < Phi(-oez y + e) is  0 < Lfun y  and  0 < Ufun y  on
+   [1.17, 9.6].  Both functions have closed-form derivatives exp(-y^2/2) * W(y);
+   Interval's Taylor models give the sign of W on the whole range (W <= 0 except
+   for Ufun on [1.17, 1.4], where |W| <= 1e-6), so each margin is bounded below
+   by its value at one end point, and those three values are certified by
+   Interval's quadrature (integral tactic). *)
 From Coq Require Import Reals Lra.
 Set Warnings "-ambiguous-paths".
 From Coquelicot Require Import Coquelicot.
@@ -59,31 +67,288 @@ Qed.
 Definition within_1e6 (p : R) : Prop :=
   Phi (gauss_quant p 0 1 - 1 / 1000000) < p < Phi (gauss_quant p 0 1 + 1 / 1000000).
 
-Ltac anchor prec :=
-  unfold within_1e6; rewrite gq_lower by (unfold tail_eps; lra);
-  unfold Phi, std_normal_pdf, oez, oeN, oeD; split;
-  integral with (i_prec prec, i_fuel 5000, i_degree 20).
-
-Lemma anchor_4e1 : within_1e6 (4 / 10). Proof. anchor 70%positive. Qed.
-Lemma anchor_25e2 : within_1e6 (25 / 100). Proof. anchor 70%positive. Qed.
-Lemma anchor_1e1 : within_1e6 (1 / 10). Proof. anchor 70%positive. Qed.
-Lemma anchor_33e3 : within_1e6 (33 / 1000). Proof. anchor 70%positive. Qed.
-Lemma anchor_1e2 : within_1e6 (1 / 100). Proof. anchor 70%positive. Qed.
-Lemma anchor_1e3 : within_1e6 (1 / 10 ^ 3). Proof. anchor 80%positive. Qed.
-Lemma anchor_1e4 : within_1e6 (1 / 10 ^ 4). Proof. anchor 80%positive. Qed.
-Lemma anchor_1e6 : within_1e6 (1 / 10 ^ 6). Proof. anchor 90%positive. Qed.
-Lemma anchor_1e9 : within_1e6 (1 / 10 ^ 9). Proof. anchor 100%positive. Qed.
-Lemma anchor_1e12 : within_1e6 (1 / 10 ^ 12). Proof. anchor 120%positive. Qed.
-Lemma anchor_1e16 : within_1e6 (1 / 10 ^ 16). Proof. anchor 140%positive. Qed.
-Lemma anchor_1e20 : within_1e6 (1 / 10 ^ 20). Proof. anchor 150%positive. Qed.
-
-Lemma gauss_quant_accuracy_anchors_l :
-  within_1e6 (4 / 10) /\ within_1e6 (25 / 100) /\ within_1e6 (1 / 10) /\ within_1e6 (33 / 1000) /\
-  within_1e6 (1 / 100) /\ within_1e6 (1 / 10 ^ 3) /\ within_1e6 (1 / 10 ^ 4) /\ within_1e6 (1 / 10 ^ 6) /\
-  within_1e6 (1 / 10 ^ 9) /\ within_1e6 (1 / 10 ^ 12) /\ within_1e6 (1 / 10 ^ 16) /\ within_1e6 (1 / 10 ^ 20).
+(** * Phi: derivative, symmetry *)
+Lemma RInt_pdf_is_derive (x : R) : is_derive (fun b => RInt std_normal_pdf 0 b) x (std_normal_pdf x).
 Proof.
-  repeat split;
-    first [ apply anchor_4e1 | apply anchor_25e2 | apply anchor_1e1 | apply anchor_33e3 | apply anchor_1e2
-          | apply anchor_1e3 | apply anchor_1e4 | apply anchor_1e6 | apply anchor_1e9 | apply anchor_1e12
-          | apply anchor_1e16 | apply anchor_1e20 ].
+  apply (@is_derive_RInt R_NormedModule std_normal_pdf (fun b => RInt std_normal_pdf 0 b) 0 x).
+  - apply filter_forall. intros b. apply (@RInt_correct R_CompleteNormedModule), pdf_ex_RInt.
+  - apply pdf_continuous.
+Qed.
+
+Lemma Phi_is_derive (x : R) : is_derive Phi x (std_normal_pdf x).
+Proof.
+  unfold Phi.
+  evar_last.
+  - apply (is_derive_plus (fun _ => 1 / 2) (fun b => RInt std_normal_pdf 0 b)).
+    + apply is_derive_const.
+    + apply RInt_pdf_is_derive.
+  - apply plus_zero_l.
+Qed.
+
+Lemma pdf_even x : std_normal_pdf (- x) = std_normal_pdf x.
+Proof. unfold std_normal_pdf. replace (- (- x * - x) / 2) with (- (x * x) / 2) by field. reflexivity. Qed.
+
+Lemma Phi_opp x : Phi (- x) = 1 - Phi x.
+Proof.
+  unfold Phi.
+  assert (E : RInt std_normal_pdf 0 (- x) = - RInt std_normal_pdf 0 x).
+  { pose proof (@RInt_correct R_CompleteNormedModule std_normal_pdf (- 0) (- x) (pdf_ex_RInt _ _)) as H.
+    apply (is_RInt_comp_opp std_normal_pdf 0 x) in H.
+    apply (@is_RInt_unique R_CompleteNormedModule) in H.
+    rewrite Ropp_0 in H. rewrite <- H.
+    transitivity (RInt (fun y => opp (std_normal_pdf y)) 0 x).
+    - apply RInt_ext. intros y _. rewrite pdf_even. reflexivity.
+    - apply (@RInt_opp R_CompleteNormedModule std_normal_pdf 0 x), pdf_ex_RInt. }
+  rewrite E. generalize (RInt std_normal_pdf 0 x). intros r. simpl in r. lra.
+Qed.
+
+Lemma Phi_0 : Phi 0 = 1 / 2.
+Proof. unfold Phi. rewrite RInt_point. unfold zero. simpl. lra. Qed.
+
+(** * The two margins as functions of y = sqrt(-2 ln p) *)
+Definition eps6 : R := 1 / 1000000.
+Definition Ufun (y : R) : R := Phi (eps6 - oez y) - exp (- (y * y) / 2).
+Definition Lfun (y : R) : R := exp (- (y * y) / 2) - Phi (- eps6 - oez y).
+(* their derivatives are exp(-y^2/2) times *)
+Definition WU (y : R) : R :=
+  y - doez y * exp ((y * y - (eps6 - oez y) * (eps6 - oez y)) / 2) / sqrt (2 * PI).
+Definition WL (y : R) : R :=
+  - y + doez y * exp ((y * y - (- eps6 - oez y) * (- eps6 - oez y)) / 2) / sqrt (2 * PI).
+
+Lemma gauss_is_derive (y : R) : is_derive (fun y => exp (- (y * y) / 2)) y (- y * exp (- (y * y) / 2)).
+Proof. auto_derive; [trivial | unfold Rdiv; field]. Qed.
+
+Lemma sqrt2pi_pos : 0 < sqrt (2 * PI).
+Proof. apply sqrt_lt_R0. pose proof PI_RGT_0. lra. Qed.
+
+Lemma pdf_split y g :
+  std_normal_pdf g = exp (- (y * y) / 2) * (exp ((y * y - g * g) / 2) / sqrt (2 * PI)).
+Proof.
+  unfold std_normal_pdf.
+  replace (exp (- (g * g) / 2)) with (exp (- (y * y) / 2) * exp ((y * y - g * g) / 2)).
+  - pose proof sqrt2pi_pos. field. lra.
+  - rewrite <- exp_plus. f_equal. field.
+Qed.
+
+Lemma Ufun_is_derive (y : R) : 0 <= y -> is_derive Ufun y (exp (- (y * y) / 2) * WU y).
+Proof.
+  intros Hy. unfold Ufun.
+  evar_last.
+  - apply (is_derive_minus (fun y => Phi (eps6 - oez y)) (fun y => exp (- (y * y) / 2))).
+    + apply (is_derive_comp Phi (fun y => eps6 - oez y)).
+      * apply Phi_is_derive.
+      * apply (is_derive_minus (fun _ => eps6) oez); [apply is_derive_const | apply oez_is_derive; assumption].
+    + apply gauss_is_derive.
+  - unfold minus, plus, opp, scal, zero, mult. simpl. unfold mult. simpl.
+    rewrite (pdf_split y (eps6 - oez y)). unfold WU. pose proof sqrt2pi_pos. field. lra.
+Qed.
+
+Lemma Lfun_is_derive (y : R) : 0 <= y -> is_derive Lfun y (exp (- (y * y) / 2) * WL y).
+Proof.
+  intros Hy. unfold Lfun.
+  evar_last.
+  - apply (is_derive_minus (fun y => exp (- (y * y) / 2)) (fun y => Phi (- eps6 - oez y))).
+    + apply gauss_is_derive.
+    + apply (is_derive_comp Phi (fun y => - eps6 - oez y)).
+      * apply Phi_is_derive.
+      * apply (is_derive_minus (fun _ => - eps6) oez); [apply is_derive_const | apply oez_is_derive; assumption].
+  - unfold minus, plus, opp, scal, zero, mult. simpl. unfold mult. simpl.
+    rewrite (pdf_split y (- eps6 - oez y)). unfold WL. pose proof sqrt2pi_pos. field. lra.
+Qed.
+
+(** * Signs of the derivatives (Taylor models) and anchor values (certified quadrature) *)
+Lemma WL_neg y : 117 / 100 <= y <= 96 / 10 -> WL y <= 0.
+Proof.
+  intros H. unfold WL, doez, oez, oeN, oeD, eps6.
+  interval with (i_bisect y, i_taylor y, i_degree 10, i_prec 80).
+Qed.
+
+Lemma WU_neg y : 14 / 10 <= y <= 96 / 10 -> WU y <= 0.
+Proof.
+  intros H. unfold WU, doez, oez, oeN, oeD, eps6.
+  interval with (i_bisect y, i_taylor y, i_degree 10, i_prec 80).
+Qed.
+
+Lemma WU_low y : 117 / 100 <= y <= 14 / 10 -> - (1 / 1000000) <= WU y.
+Proof.
+  intros H. unfold WU, doez, oez, oeN, oeD, eps6.
+  interval with (i_bisect y, i_taylor y, i_degree 10, i_prec 80).
+Qed.
+
+Lemma L_anchor : 0 < Lfun (96 / 10).
+Proof.
+  unfold Lfun, Phi, std_normal_pdf, oez, oeN, oeD, eps6. apply Rlt_Rminus.
+  integral with (i_prec 160, i_fuel 5000, i_degree 20).
+Qed.
+
+Lemma U_anchor_hi : 0 < Ufun (96 / 10).
+Proof.
+  unfold Ufun, Phi, std_normal_pdf, oez, oeN, oeD, eps6. apply Rlt_Rminus.
+  integral with (i_prec 160, i_fuel 5000, i_degree 20).
+Qed.
+
+(* at the low end: U(1.17) exceeds what a slope of -1e-6 exp(-y^2/2) can eat over [1.17, 1.4] *)
+Lemma U_anchor_lo : 1 / 1000000 * (23 / 100) < Ufun (117 / 100).
+Proof.
+  unfold Ufun, Phi, std_normal_pdf, oez, oeN, oeD, eps6.
+  integral with (i_prec 80, i_fuel 2000, i_degree 15).
+Qed.
+
+(** * Monotonicity arguments *)
+Lemma nonincreasing_on (f df : R -> R) a b :
+  a <= b ->
+  (forall x, a <= x <= b -> is_derive f x (df x)) ->
+  (forall x, a <= x <= b -> df x <= 0) ->
+  forall x, a <= x <= b -> f b <= f x.
+Proof.
+  intros Hab Hd Hs x Hx.
+  destruct (Req_dec x b) as [-> | N]; [lra|].
+  destruct (MVT_gen f x b df) as [c [Hc E]].
+  - intros t Ht. rewrite Rmin_left, Rmax_right in Ht by lra. apply Hd. lra.
+  - intros t Ht. rewrite Rmin_left, Rmax_right in Ht by lra.
+    apply derivable_continuous_pt. exists (df t). apply is_derive_Reals, Hd. lra.
+  - rewrite Rmin_left, Rmax_right in Hc by lra.
+    assert (df c <= 0) by (apply Hs; lra).
+    assert (df c * (b - x) <= 0) by nra. lra.
+Qed.
+
+Lemma slope_bounded_below (f df : R -> R) a b m :
+  a <= b -> 0 <= m ->
+  (forall x, a <= x <= b -> is_derive f x (df x)) ->
+  (forall x, a <= x <= b -> - m <= df x) ->
+  forall x, a <= x <= b -> f a - m * (b - a) <= f x.
+Proof.
+  intros Hab Hm Hd Hs x Hx.
+  destruct (Req_dec x a) as [-> | N]; [nra|].
+  destruct (MVT_gen f a x df) as [c [Hc E]].
+  - intros t Ht. rewrite Rmin_left, Rmax_right in Ht by lra. apply Hd. lra.
+  - intros t Ht. rewrite Rmin_left, Rmax_right in Ht by lra.
+    apply derivable_continuous_pt. exists (df t). apply is_derive_Reals, Hd. lra.
+  - rewrite Rmin_left, Rmax_right in Hc by lra.
+    assert (- m <= df c) by (apply Hs; lra).
+    assert (- m * (b - a) <= df c * (x - a)) by nra. lra.
+Qed.
+
+Lemma exp_gauss_le1 y : exp (- (y * y) / 2) <= 1.
+Proof.
+  rewrite <- exp_0. destruct (Req_dec y 0) as [-> | N].
+  - right. f_equal. field.
+  - left. apply exp_increasing. nra.
+Qed.
+
+Lemma Lfun_pos y : 117 / 100 <= y <= 96 / 10 -> 0 < Lfun y.
+Proof.
+  intros Hy. pose proof L_anchor.
+  assert (Lfun (96 / 10) <= Lfun y); [|lra].
+  apply (nonincreasing_on Lfun (fun y => exp (- (y * y) / 2) * WL y) (117 / 100)); try lra.
+  - intros x Hx. apply Lfun_is_derive. lra.
+  - intros x Hx. pose proof (WL_neg x Hx). pose proof (exp_pos (- (x * x) / 2)). nra.
+Qed.
+
+Lemma Ufun_pos y : 117 / 100 <= y <= 96 / 10 -> 0 < Ufun y.
+Proof.
+  intros Hy. destruct (Rle_dec y (14 / 10)) as [Lo | Hi].
+  - pose proof U_anchor_lo.
+    assert (Ufun (117 / 100) - 1 / 1000000 * (14 / 10 - 117 / 100) <= Ufun y); [|lra].
+    apply (slope_bounded_below Ufun (fun y => exp (- (y * y) / 2) * WU y)); try lra.
+    + intros x Hx. apply Ufun_is_derive. lra.
+    + intros x Hx. pose proof (WU_low x Hx). pose proof (exp_pos (- (x * x) / 2)).
+      pose proof (exp_gauss_le1 x). nra.
+  - pose proof U_anchor_hi.
+    assert (Ufun (96 / 10) <= Ufun y); [|lra].
+    apply (nonincreasing_on Ufun (fun y => exp (- (y * y) / 2) * WU y) (14 / 10)); try lra.
+    + intros x Hx. apply Ufun_is_derive. lra.
+    + intros x Hx. pose proof (WU_neg x Hx). pose proof (exp_pos (- (x * x) / 2)). nra.
+Qed.
+
+(** * Back to probabilities *)
+Lemma y_of_sq p : 0 < p -> p <= 1 -> exp (- (y_of p * y_of p) / 2) = p.
+Proof.
+  intros H0 H1. unfold y_of. rewrite sqrt_sqrt.
+  - replace (- (-2 * ln p) / 2) with (ln p) by field. apply exp_ln. assumption.
+  - assert (ln p <= 0) by (rewrite <- ln_1; destruct (Req_dec p 1) as [-> | N]; [lra | apply Rlt_le, ln_increasing; lra]).
+    lra.
+Qed.
+
+Lemma y_of_range_acc p : tail_eps <= p -> p < 1 / 2 -> 117 / 100 <= y_of p <= 96 / 10.
+Proof.
+  intros H1 H2. assert (0 < tail_eps) by (unfold tail_eps; lra).
+  assert (A : 117 / 100 <= y_of (1 / 2)) by (unfold y_of; interval).
+  assert (B : y_of tail_eps <= 96 / 10) by (unfold y_of, tail_eps; interval).
+  split.
+  - apply Rlt_le, Rle_lt_trans with (y_of (1 / 2)); [assumption | apply y_of_decreasing; lra].
+  - destruct (Req_dec p tail_eps) as [-> | N]; [assumption|].
+    apply Rlt_le, Rlt_le_trans with (y_of tail_eps); [apply y_of_decreasing; lra | assumption].
+Qed.
+
+Lemma accuracy_lower p : tail_eps <= p -> p < 1 / 2 -> within_1e6 p.
+Proof.
+  intros H1 H2. assert (0 < tail_eps) by (unfold tail_eps; lra).
+  unfold within_1e6. rewrite gq_lower by assumption. fold (y_of p).
+  pose proof (y_of_range_acc p H1 H2) as R.
+  pose proof (Lfun_pos _ R) as HL. pose proof (Ufun_pos _ R) as HU.
+  unfold Lfun, Ufun in *. rewrite y_of_sq in * by lra. unfold eps6 in *.
+  replace (- oez (y_of p) - 1 / 1000000) with (- (1 / 1000000) - oez (y_of p)) by ring.
+  replace (- oez (y_of p) + 1 / 1000000) with (1 / 1000000 - oez (y_of p)) by ring.
+  lra.
+Qed.
+
+Lemma accuracy_median : within_1e6 (1 / 2).
+Proof.
+  unfold within_1e6. pose proof gauss_quant_median_l as M0.
+  assert (M : Rabs (gauss_quant (1 / 2) 0 1) < 1 / 1000000) by lra. apply Rabs_def2 in M.
+  rewrite <- Phi_0 at 2 3. split; apply Phi_increasing; lra.
+Qed.
+
+Lemma accuracy_upper p : 1 / 2 < p -> p <= 1 - tail_eps -> within_1e6 p.
+Proof.
+  intros H1 H2.
+  pose proof (accuracy_lower (1 - p) ltac:(lra) ltac:(lra)) as [A B].
+  assert (E : gauss_quant p 0 1 = - gauss_quant (1 - p) 0 1).
+  { replace p with (1 - (1 - p)) at 1 by ring. rewrite gauss_quant_symmetric_l by lra. ring. }
+  unfold within_1e6. rewrite E.
+  replace (- gauss_quant (1 - p) 0 1 - 1 / 1000000) with (- (gauss_quant (1 - p) 0 1 + 1 / 1000000)) by ring.
+  replace (- gauss_quant (1 - p) 0 1 + 1 / 1000000) with (- (gauss_quant (1 - p) 0 1 - 1 / 1000000)) by ring.
+  rewrite !Phi_opp. lra.
+Qed.
+
+(* the accuracy clause, for every probability *)
+Lemma gauss_quant_accuracy_l p : tail_eps <= p -> p <= 1 - tail_eps -> within_1e6 p.
+Proof.
+  intros H1 H2. destruct (Rtotal_order p (1 / 2)) as [L | [-> | G]].
+  - apply accuracy_lower; assumption.
+  - apply accuracy_median.
+  - apply accuracy_upper; assumption.
+Qed.
+
+Lemma gauss_quant_accuracy_c p : 1 / 10 ^ 20 <= p -> p <= 1 - 1 / 10 ^ 20 ->
+  Phi (gauss_quant p 0 1 - 1 / 1000000) < p < Phi (gauss_quant p 0 1 + 1 / 1000000).
+Proof. intros H1 H2. apply gauss_quant_accuracy_l; unfold tail_eps; lra. Qed.
+
+(* hypotheses are satisfiable *)
+Example accuracy_example : 1 / 10 ^ 20 <= 1 / 1000 /\ 1 / 1000 <= 1 - 1 / 10 ^ 20.
+Proof. lra. Qed.
+
+(* in the form of the property: any true quantile of p is within 1e-6 standard deviations *)
+Lemma gauss_quant_accuracy_std_l p mu std x :
+  0 < std -> 1 / 10 ^ 20 <= p -> p <= 1 - 1 / 10 ^ 20 ->
+  Phi ((x - mu) / std) = p -> Rabs (gauss_quant p mu std - x) < std / 1000000.
+Proof.
+  intros Hs H1 H2 Hx.
+  destruct (gauss_quant_accuracy_l p) as [A B]; try (unfold tail_eps; lra).
+  pose proof (Phi_bracket _ _ _ _ A B Hx) as Hb.
+  rewrite gauss_quant_affine_l.
+  replace (gauss_quant p 0 1 * std + mu - x) with (std * (gauss_quant p 0 1 - (x - mu) / std)) by (field; lra).
+  rewrite Rabs_mult, (Rabs_right std) by lra.
+  unfold Rdiv at 2. apply Rmult_lt_compat_l; lra.
+Qed.
+
+Lemma gauss_quant_accuracy_full_l p : 1 / 10 ^ 20 <= p -> p <= 1 - 1 / 10 ^ 20 ->
+  Phi (gauss_quant p 0 1 - 1 / 1000000) < p < Phi (gauss_quant p 0 1 + 1 / 1000000) /\
+  forall mu std x, 0 < std -> Phi ((x - mu) / std) = p ->
+    Rabs (gauss_quant p mu std - x) < std / 1000000.
+Proof.
+  intros H1 H2. split.
+  - apply gauss_quant_accuracy_c; assumption.
+  - intros mu std x Hs Hx. apply gauss_quant_accuracy_std_l; assumption.
 Qed.
